@@ -42,7 +42,10 @@ def compare(case, impl, model, stats=None, proj=None):
         return ["harness error on implementation side: " + ie]
     if isinstance(me, str) and me.startswith("Driver"):
         return ["driver error on model side: %s %s" % (me, model.get("msg"))]
-    if ie != me:
+    # the properties demand "TypeError or ValueError" for a malformed call, not a particular one of the two (which one
+    # depends on the order of the validation steps, C13_class): a rejection is compared as a rejection
+    rej = ("TypeError", "ValueError")
+    if ie != me and not (ie in rej and me in rej and (proj is None or "exc_class" not in proj)):
         if want("exc") or ie is None or me is None:
             out.append("outcome: impl %s (%s) / model %s" % (ie, impl.get("_msg"), me))
         return out
@@ -56,9 +59,7 @@ def compare(case, impl, model, stats=None, proj=None):
         if want("trace"):
             if impl["wr"] != model["wr"]:
                 out.append("attribute writes: impl %s / model %s" % (impl["wr"], model["wr"]))
-            extra = set(impl["rd"]) - set(model["rd"])
-            if extra:
-                out.append("attributes read by impl but not by model: %s" % sorted(extra))
+            # reads of model attributes are not compared: no property is about them (an extra read is harmless)
             if impl.get("mut_other"):
                 out.append("rating fields other than mu/sigma written: %s" % impl["mut_other"][:3])
     if ie is not None:
